@@ -275,6 +275,13 @@ shared_ptr<IProperty> SectionHDF5::createProperty(const string &name, const Vari
 
 
 shared_ptr<IProperty> SectionHDF5::createProperty(const string &name, const vector<Variant> &values) {
+    // all values must have the type of the first one: check before the property is created,
+    // PropertyHDF5::values would throw only after the data set exists
+    for (const Variant &v : values) {
+        if (v.type() != values[0].type()) {
+            throw std::invalid_argument("Inconsistent DataTypes!");
+        }
+    }
     NDSize shape(1, values.size());
     shared_ptr<IProperty> p = createProperty(name, values[0].type(), shape);
     p->values(values);
